@@ -767,6 +767,8 @@ def py_equal(a, b):
         return all(py_equal(getattr(a, k, None), getattr(b, k, None)) for k in type(a).__slots__)
     if isinstance(a, BaseException) and type(a) is type(b):
         return True
+    if (type(a).__name__ in ('Closure', 'MethodClosure') and callable(b)) or (type(b).__name__ in ('Closure', 'MethodClosure') and callable(a)):
+        return getattr(a, 'name', getattr(a, '__name__', None)) == getattr(b, 'name', getattr(b, '__name__', None))
     if type(a) is type(b) and hasattr(a, '__dict__') and not isinstance(a, (type, str, int, float, tuple, NativeOpaque, NativeFn)) \
             and type(a).__eq__ is object.__eq__ and (type(a).__module__ or '').split('.')[0] in ('formulas', 'contracts'):
         # instances of repository classes without their own __eq__: compared by their fields
